@@ -4,6 +4,10 @@ import json, os
 HERE = os.path.dirname(os.path.dirname(os.path.abspath(__file__)))
 
 CHECKS = {
+ 'C01': dict(level='fault_enumeration', design='2/C01',
+   technique='exhaustive enumeration of single faults (bit flips by region, truncation, drop, duplicate, swap, insertion, splice) by an on-path editor on the ciphertext of a live real client<->server session, for every negotiable cipher x MAC x compression combination and both directions; prefix-of-baseline oracle',
+   text='For every configuration and direction a fault is applied at a chosen encrypted packet of a deterministic session; the receiving application must have received exactly the data of the packets before the first altered byte, nothing afterwards, and the receiver must end with an integrity/protocol error or stall and then fail with ConnectionLost at EOF. Quick covers every cipher x MAC pair plus both zlib variants with every cipher and every MAC, three target packets and boundary positions of each packet region; thorough covers the full product, every packet and every byte.',
+   note='single fault per execution; same algorithms in both directions (asymmetric negotiation is covered against the independent peer in C02); cryptographic weakness of legacy ciphers is out of scope.'),
  'C10': dict(level='exploration', design='2/C10',
    technique='bounded-exhaustive enumeration of hostile inputs (raw prefixes, single-site mutations of every phase-legal message, parser corpus mutations, SOCKS byte strings, small-packet floods) executed on the real code under a deterministic work meter (transport-write budget, loop-step horizon, wall-clock watchdog)',
    text='Every execution feeds one hostile input to a real endpoint (either role) in the phase where it is accepted, after which the application keeps using its channels; the work meter must hold, no exception may reach the loop handler, and a closed connection notifies its owner exactly once. Parsers (DER, every key/certificate format, packet getters, SSHSIG, SOCKS) are fed every truncation and single-byte replacement of a seed corpus and may only raise their documented error. Output amplification is checked by doubling small-packet floods of every line-editor key.',
